@@ -18,6 +18,7 @@ import Driver.NumParseOps
 import Driver.MemViewOps
 import Driver.UIOps
 import Driver.EmuOps
+import Driver.UIRealOps
 /-
 Registry of all operation handlers of the model driver.  One line per component.
 -/
@@ -43,6 +44,7 @@ def allHandlers : List (String × Handler) :=
   numParseHandlers ++
   memViewHandlers ++
   uiHandlers ++
-  emuHandlers
+  emuHandlers ++
+  uirealHandlers
 
 end Driver
